@@ -15,6 +15,8 @@ def step(ctx, R, rule, label, path, args, gmap, assume, want_ok=True):
     if not solver.sat(list(assume)):
         return res          # this combination of guards cannot occur
     ev, outs = ctx.entry(path, args=args, gmap=gmap, assume=assume)
+    if ev is not None:
+        no_panic_gaps(R, rule, ev, path, label=label)
     if not outs:
         R.inst(rule, label + '/summary', False, expected='a summary', found='none', entry=path, kind='unprovable')
         return res
